@@ -60,11 +60,12 @@ def generate(v, name, mode, pool_size, depth, clients=('A', 'B'), actors=('A',),
     for tag, obj in res.prints:
         if tag != 'SCENARIO':
             continue
-        key = json.dumps(obj, sort_keys=True)
+        steps = obj['steps'] if isinstance(obj, dict) else obj
+        key = json.dumps(steps, sort_keys=True)
         if key in seen:
             continue
         seen.add(key)
-        out.append({'steps': obj, 'mode': mode, 'pool_size': pool_size, 'family': name})
+        out.append({'steps': steps, 'mode': mode, 'pool_size': pool_size, 'family': name})
     return out
 
 
@@ -241,7 +242,40 @@ def check(prop, tier, seed):
         'C10': {'cancel'},
     }[prop]
     n = {'quick': 400, 'thorough': 6000}[tier]
-    chosen = select(scenarios, rng, n, want)
+    # witness corpus: behaviours in which some deviation class of PoolCore breaks an invariant (tools/gen_witnesses.py)
+    witnesses = []
+    try:
+        with open(os.path.join(tlc.SPEC, 'witnesses_poolcore.json')) as f:
+            witnesses = json.load(f)
+    except FileNotFoundError:
+        v.tool_error('spec/witnesses_poolcore.json missing (run tools/gen_witnesses.py)')
+    bydev = {}
+    for wsc in witnesses:
+        for d in wsc['witness_of']:
+            bydev.setdefault(d, []).append(wsc)
+    nw = {'quick': 260, 'thorough': len(witnesses)}[tier]
+    picked_w = []
+    seenw = set()
+    devs = sorted(bydev)
+    for d in devs:
+        rng.shuffle(bydev[d])
+    i = 0
+    while len(picked_w) < nw:
+        progressed = False
+        for d in devs:
+            if i < len(bydev[d]):
+                k = (bydev[d][i]['family'], json.dumps(bydev[d][i]['steps'], sort_keys=True))
+                progressed = True
+                if k not in seenw:
+                    seenw.add(k)
+                    picked_w.append(dict(bydev[d][i]))
+                    if len(picked_w) >= nw:
+                        break
+        if not progressed:
+            break
+        i += 1
+    v.extra['witness_scenarios'] = len(picked_w)
+    chosen = picked_w + select(scenarios, rng, max(50, n - len(picked_w)), want)
     for i, sc in enumerate(chosen):
         sc['id'] = i + 1
         sc['seed'] = seed * 100003 + i
